@@ -159,6 +159,9 @@ func Verify(root *etree.Element, sigpath string, extraCerts []*x509.Certificate)
 			(sig.Reference.Transforms[1].Algorithm != AlgXMLExcC14n && sig.Reference.Transforms[1].Algorithm != AlgXMLExcC14nRec) {
 			return nil, errors.New("xmldsig: unsupported reference transform")
 		}
+		if sigEl.Parent() == nil {
+			return nil, errors.New("xmldsig: enveloped signature has no enclosing document")
+		}
 		sigEl.Parent().RemoveChild(sigEl)
 		reference = root
 	} else {
